@@ -42,7 +42,7 @@ CLAIMED = {
         text="Kernel-checked: the structural start-code scanner equals the declarative least-index specification; the NAL iterator equals the declarative split; for every byte string shorter than 2^32 "
              "the converted access unit parses exactly to its end as 4-byte length-prefixed units equal to the specification's units; constructive theorem for all joins of well-formed NAL units with "
              "3/4-byte start codes, leading zeros and trailing zeros; linear step bound of the scanner; the model accepts an ADTS frame iff it is structurally valid by bit position and stores exactly "
-             "bytes [header, declared length). Correspondence: exhaustive small strings, constructive joins, ADTS sweeps; Spec oracle evaluated on the implementation's own output. annexb_to_avcc and hevc_annexb_to_hvcc are TRANSLATED from the source on every run (tools/rs2lean_nal.py) and proved equal to the model's toAvcc (Props/C14Generated.lean).",
+             "bytes [header, declared length). Correspondence: exhaustive small strings, constructive joins, ADTS sweeps; Spec oracle evaluated on the implementation's own output. annexb_to_avcc and hevc_annexb_to_hvcc are TRANSLATED from the source on every run (tools/rs2lean_nal.py) and proved equal to the model's toAvcc (Props/C14Generated.lean); the decision logic of adts_to_raw is TRANSLATED likewise (tools/rs2lean_adts.py) and proved equal to the model's adtsToRaw for every byte string (Props/C14GeneratedAdts.lean).",
         note=TB + "Assumes slices <= isize::MAX and, for the length prefix, units < 2^32 bytes.",
         technique="Lean 4 proof (fun_induction over the scanner, bit-field arithmetic by omega) + correspondence check",
         ref="DESIGN.md section 5 C14"),
